@@ -684,6 +684,60 @@ def _script_off_end_job(args):
         shutil.rmtree(d, ignore_errors=True)
 
 
+def _two_pipelines_job(args):
+    """C12 with two complete pipelines (reader -> tokenizer -> observers) alive in one process: each observer receives exactly the
+    detections of its own stream"""
+    idx, n1, n2, seed_ = args
+    sys.path.insert(0, C.REPO)
+    import random
+    import auditok
+    from auditok.util import AudioReader
+    from auditok import workers as W
+    rr = random.Random(seed_)
+
+    def audio(nb):
+        pat = [1 if rr.random() < 0.55 else 0 for _ in range(nb)]
+        return pat, b"".join((b"\x10\x27" if on else b"\0\0") * (WIN * CH) if SW == 2 else bytes([60 if on else 0]) * (WIN * CH * SW) for on in pat)
+    kw = dict(min_dur=BD, max_dur=4 * BD, max_silence=rr.choice([0, BD]), analysis_window=BD)
+
+    class Rec(W.Worker):
+        def __init__(self):
+            self.got = []
+            super().__init__(timeout=0.05)
+
+        def _process_message(self, m):
+            self.got.append((m[0], m[1].meta.start, m[1].meta.end, bytes(m[1].data)))
+    pipes = []
+    for nb in (n1, n2):
+        pat, data = audio(nb)
+        want = [(k + 1, x.meta.start, x.meta.end, bytes(x.data)) for k, x in enumerate(
+            auditok.split(data, sampling_rate=RATE, sample_width=SW, channels=CH, energy_threshold=30, **kw))]
+        rd = AudioReader(data, sampling_rate=RATE, sample_width=SW, channels=CH, block_dur=BD)
+        obs = [Rec(), Rec()]
+        tok = W.TokenizerWorker(rd, observers=obs, energy_threshold=30, **kw)
+        pipes.append((pat, want, obs, tok))
+    for _p, _w, _o, tok in pipes:
+        tok.start_all()
+    what = None
+    for k, (pat, want, obs, tok) in enumerate(pipes):
+        tok.join(20)
+        for o in obs:
+            o.join(20)
+        alive = [t for t in [tok] + obs if t.is_alive()]
+        if alive and what is None:
+            what = "two pipelines running at once: %d thread(s) of pipeline %d still alive 20 s after the stream ended" % (len(alive), k + 1)
+            for t in alive:
+                try:
+                    t.send(W._STOP_PROCESSING)
+                except Exception:
+                    pass
+        for j, o in enumerate(obs):
+            if what is None and o.got != want:
+                what = "two pipelines running at once: observer %d of pipeline %d received %d detection(s) %r..., split() of that pipeline's stream (activity %r) finds %d: %r..." % (
+                    j + 1, k + 1, len(o.got), [g[:3] for g in o.got[:4]], pat, len(want), [g[:3] for g in want[:4]])
+    return {"blocks": [n1, n2]}, what
+
+
 def _two_savers_job(args):
     """C13 with two stream savers alive in the same process (two recordings at once): each file holds exactly its own stream"""
     idx, n1, n2, cache_sec, seed_ = args
@@ -880,6 +934,12 @@ def run(prop, tier):
                 if what and "C12" not in violations:
                     violations["C12"] = {"what": what, "script_run": res_o}
         hist["scripts_running_off_their_end"] = len(oj)
+        pj = [(i, r.randint(3, 40), r.randint(3, 40), r.randrange(1 << 30)) for i in range(8 if quick else 80)]
+        with mp.get_context("fork").Pool(min(C.NCPU, 8)) as pool:
+            for res_p, what in pool.imap_unordered(_two_pipelines_job, pj, chunksize=1):
+                if what and "C12" not in violations:
+                    violations["C12"] = {"what": what, "two_pipelines_run": res_p}
+        hist["two_pipelines_runs"] = len(pj)
     if prop == "C13":
         tj = [(i, r.randint(1, 30), r.randint(1, 30), r.choice([0, BD / 2, BD, 3.3 * BD, 100.0]), r.randrange(1 << 30)) for i in range(8 if quick else 80)]
         with mp.get_context("fork").Pool(min(C.NCPU, 8)) as pool:
